@@ -107,7 +107,8 @@ def verdicts_unit(res: CheckResult, hist: dict, expected: Dict[int, dict], ic: A
                 continue
             # contracts which are NOT listed for this member must not influence the verdict either: invariants of
             # other classes of the history vary too
-            cons = sorted(set(cons) | {i for i, c in enumerate(hist["con"], 1) if c["role"] == "inv"})
+            # (so do all the other contracts of the history: e.g. one added to another class after the fact)
+            cons = sorted(set(cons) | {i for i, c in enumerate(hist["con"], 1) if c["role"] in ("inv", "pre", "post")})
             assigns = list(itertools.product([True, False], repeat=len(cons)))
             if len(assigns) > max_assign:
                 assigns = rng.sample(assigns, max_assign)
